@@ -326,9 +326,10 @@ def main(modname, argv=None):
             sc2, v2 = minimise(modname, sc, target, wall=budget.get('min_wall', 90.0))
             if v2 is not None:
                 sc, v = sc2, v2
-        os.makedirs(os.path.join(VERIF, 'replays'), exist_ok=True)
+        rdir = os.environ.get('VERIF_REPLAY_DIR') or os.path.join(VERIF, 'replays')
+        os.makedirs(rdir, exist_ok=True)
         h = hashlib.sha1(json.dumps(key).encode()).hexdigest()[:8]
-        path = os.path.join(VERIF, 'replays', f'{chk.PROP}-{sc.get("seed")}-{h}.json')
+        path = os.path.join(rdir, f'{chk.PROP}-{sc.get("seed")}-{h}.json')
         with open(path, 'w') as f:
             json.dump({'property': chk.PROP, 'violation': v, 'scenario': sc}, f, indent=1, default=str)
         env = dict(os.environ)
@@ -374,8 +375,9 @@ def main(modname, argv=None):
         'harness_errors': len(harness_errors),
         'first_seed': seeds[0], 'seed_count_requested': n_runs,
     }
-    write_evidence(chk.PROP, a.tier, a.seed, getattr(chk, 'LEVEL', 'exploration'), coverage, total_wall,
-                   len(reported), getattr(chk, 'ASSUMPTIONS', []))
+    if not os.environ.get('VERIF_NO_EVIDENCE'):      # (the sensitivity self-test runs against a patched scratch copy: that is no evidence)
+        write_evidence(chk.PROP, a.tier, a.seed, getattr(chk, 'LEVEL', 'exploration'), coverage, total_wall,
+                       len(reported), getattr(chk, 'ASSUMPTIONS', []))
     print(f'runs={evaluations} nontrivial={nontrivial} distinct={len(sigs)} states={len(states)} '
           f'sim_s={sim_seconds:.0f} wall={total_wall:.1f}s known={len(known_hits)} fresh={len(fresh)}')
     if coverage['coverage_gaps']:
